@@ -9,6 +9,7 @@ import (
 	"strings"
 	"unicode"
 	"unicode/utf16"
+	"unicode/utf8"
 )
 
 const (
@@ -163,8 +164,19 @@ func (lineParser *LineParser) parseMarkup() (*ParseResult, error) {
 		}
 	}
 
+	// The text is trimmed, so the attributes have to be moved (and possibly shortened) accordingly.
+	text := builder.String()
+	trimmedText := strings.TrimSpace(text)
+	trimmedLength := utf8.RuneCountInString(trimmedText)
+	leadingTrim := utf8.RuneCountInString(text) - utf8.RuneCountInString(strings.TrimLeftFunc(text, unicode.IsSpace))
+	for i := range attributes {
+		start := min(max(attributes[i].Position-leadingTrim, 0), trimmedLength)
+		end := min(max(attributes[i].Position+attributes[i].Length-leadingTrim, 0), trimmedLength)
+		attributes[i].Position, attributes[i].Length = start, end-start
+	}
+
 	return &ParseResult{
-		Text:       strings.TrimSpace(builder.String()),
+		Text:       trimmedText,
 		Attributes: attributes,
 	}, nil
 }
